@@ -52,6 +52,27 @@ func c10PersistRun(path []int, ops []c10Op) (key, detail string) {
 			if !bitsAgree(sc[i], m.s[i]) {
 				return o.name + "/persistent-objects/Bits-differs-from-Encode", fmt.Sprintf("%s: s%d", desc(), i)
 			}
+
+			if sc[i].IsZero() != (m.s[i].Sign() == 0) || sc[i].IsOne() != (m.s[i].Cmp(big.NewInt(1)) == 0) {
+				return o.name + "/persistent-objects/IsZero-or-IsOne-differs-from-model", fmt.Sprintf("%s: s%d", desc(), i)
+			}
+		}
+
+		// pairwise observables
+		eq := m.e[0].Eq(m.e[1])
+		if (el[0].Equal(el[1]) == 1) != eq || (el[1].Equal(el[0]) == 1) != eq {
+			return o.name + "/persistent-objects/Equal-differs-from-model", desc()
+		}
+
+		for i := range el {
+			if el[i].IsIdentity() != m.e[i].Inf {
+				return o.name + "/persistent-objects/IsIdentity-differs-from-model", fmt.Sprintf("%s: e%d", desc(), i)
+			}
+		}
+
+		cmp := m.s[0].Cmp(m.s[1])
+		if (sc[0].Equal(sc[1]) == 1) != (cmp == 0) || (sc[0].LessOrEqual(sc[1]) == 1) != (cmp <= 0) || (sc[1].LessOrEqual(sc[0]) == 1) != (cmp >= 0) {
+			return o.name + "/persistent-objects/scalar-comparison-differs-from-model", desc()
 		}
 	}
 
@@ -295,6 +316,14 @@ func C10persist(r *ev.Report) {
 		}
 	}
 
+	if ev.Thorough() {
+		// thorough: depth 3 over the FULL alphabet
+		sub = sub[:0]
+		for i := range ops {
+			sub = append(sub, i)
+		}
+	}
+
 	for _, a := range sub {
 		for _, b := range sub {
 			for _, c := range sub {
@@ -303,7 +332,7 @@ func C10persist(r *ev.Report) {
 		}
 	}
 
-	r.Rule("real curve, histories on persistent objects: every history of depth 1 and 2 over the full operation alphabet of C10real and every history of depth 3 over a sub-alphabet (Multiply, Double, Add, Subtract, Set, Base, Negate, Decode(Encode), Pow, Invert, MinusOne, HashToGroup - every receiver/argument choice) is executed from the initial pool on one set of long-lived objects that are mutated in place, and EVERY variable is compared with the abstract model after every step; exposes state remembered by object identity, which the rebuild-from-raw-state BFS cannot see; non-trivial = histories of depth >= 2")
+	r.Rule("real curve, histories on persistent objects: every history of depth 1 and 2 over the full operation alphabet of C10real and every history of depth 3 over a sub-alphabet (thorough tier: over the full alphabet; quick: Multiply, Double, Add, Subtract, Set, Base, Negate, Decode(Encode), Pow, Invert, MinusOne, HashToGroup - every receiver/argument choice) is executed from the initial pool on one set of long-lived objects that are mutated in place, and EVERY variable is compared with the abstract model after every step; exposes state remembered by object identity, which the rebuild-from-raw-state BFS cannot see; non-trivial = histories of depth >= 2")
 	r.Bound("operation_instances", len(ops))
 	r.Bound("sub_alphabet", len(sub))
 	r.Bound("histories", len(paths))
@@ -403,6 +432,27 @@ func init() {
 
 			return false
 		})}
+	elemRule := "histories on persistent element objects: every sequence of 2 element operations (every receiver/argument choice incl. the same variable: arithmetic, Multiply by each scalar variable, Set, Copy, Base, Identity, every decode path incl. rejected ones, hashing results) and every sequence of 3 over a sub-alphabet; after every step every element's stored coordinates, its compressed encoding, Equal (both orders) and IsIdentity must agree with the abstract model; non-trivial = all"
+	scalRule := "histories on persistent scalar objects: every sequence of 2 scalar operations (every receiver/argument choice incl. the same variable, nil forms, rejected decodes) and every sequence of 3 over a sub-alphabet; after every step every scalar's stored limbs, Encode, Bits, IsZero, IsOne, Equal and LessOrEqual (both orders) must agree with the abstract model; non-trivial = all"
+	isElem := func(o c10Op) bool { return o.elem }
+	isScal := func(o c10Op) bool { return !o.elem }
+	arith := func(names ...string) func(o c10Op) bool {
+		return func(o c10Op) bool {
+			for _, n := range names {
+				if o.name == n {
+					return true
+				}
+			}
+
+			return false
+		}
+	}
+
+	Parts["C01persist"] = Part{"C01", persistSub(elemRule, isElem, arith("Multiply", "Double", "Decode(Encode)", "Base", "Negate"))}
+	Parts["C02persist"] = Part{"C02", persistSub(elemRule, isElem, arith("Add", "Subtract", "Double", "Negate", "Identity"))}
+	Parts["C05persist"] = Part{"C05", persistSub(elemRule, isElem, arith("Set", "Negate", "Identity", "Double", "Decode(EncodeUncompressed)"))}
+	Parts["C06persist"] = Part{"C06", persistSub(scalRule, isScal, arith("Add", "Subtract", "Multiply", "Square", "Invert", "Pow"))}
+	Parts["C13persist"] = Part{"C13", persistSub(scalRule, isScal, arith("CSelect(0,self,arg)", "CSelect(1,self,arg)", "Set", "MinusOne", "Decode(invalid)", "Subtract"))}
 	Parts["C10persist"] = Part{"C10", C10persist}
 	Parts["C14persist"] = Part{"C14", C14persist}
 }
